@@ -147,7 +147,7 @@ class UBI(Chain):
             nb += 1
         # init generator:
         P = BytesIO(M)
-        Ts = self.Ts
+        Ts = Tweak(self.Ts)
         Ts.First = 1
         for b in range(nb-1):
             m = P.read(lb)
